@@ -11,6 +11,10 @@ CHECKS = {
     tech="property-based testing (Hypothesis): round-trip + by-construction lexical/value reference model + libxml2 differential; bounded-exhaustive datatype boundaries",
     text="Generated search (thousands of cases per run, 16-way sharded) over Python values, XSD-valid lexical forms built from the grammar, candidate type lists and enumerations; oracles are an independent lexical/value model (exact Fraction arithmetic) and libxml2's XSD validator. Searched, not proved; integer/float datatype boundaries are enumerated completely.",
     note="Trusts vlib/xsdref.py (reference model written from XSD 1.1 part 2) and libxml2 2.14 as XSD 1.0 validator; does not assert rejection of invalid strings."),
+ "C06": dict(cat="exploration", ref="§C06, §3.5",
+    tech="bounded-exhaustive enumeration of calendar/offset/time/duration tables + property-based testing (Hypothesis) against an exact integer-nanosecond reference timeline; libxml2 differential on formatted output",
+    text="Complete enumeration of the finite sub-domains the statement names (every month/day pair for eight year classes, all 1681 zone offsets, fraction lengths 1-9, hour-24 forms, all duration component subsets, every impossible time of day) plus generated search over by-construction lexical forms, stdlib conversions and adversarially close comparison pairs. Searched, not proved, outside the enumerated tables.",
+    note="Trusts vlib/xsdref.py (proleptic Gregorian calendar, XSD 1.1 year numbering) and libxml2 for year != 0; out-of-range zone offsets and mixed offset/no-offset comparisons are outside the claim."),
 }
 NOT_YET = {}
 
